@@ -93,6 +93,8 @@ struct FileGuard {
     ~FileGuard() { g_file = nullptr; }
 };
 
+/* the private bounds stand for the constants of File's constructor: they are set first, the public configuration an
+ * application performs (container size, level, restore points) comes after it and must leave them alone */
 static void configure(File & f) {
     if (BUF > 0) f.m_uncompressedFile.setBufferSize(BUF);
     f.m_readWriteQueue.setBufferSize((uint32_t)QCAP);
@@ -111,6 +113,7 @@ static std::string read_body() {
         File f;
         FileGuard fg(&f);
         configure(f);
+        f.setDefaultLogContainerSize((uint32_t)CONT);   /* without meaning for reading; an application may configure it all the same */
         f.open(PATH.c_str());
         if (!f.is_open()) throw vx::Violation("state", "open() of a valid file failed");
         size_t n = SIZES.size();
@@ -158,10 +161,10 @@ static std::string write_body() {
     {
         File f;
         FileGuard fg(&f);
+        configure(f);
         f.compressionLevel = (int)LEVEL;
         f.writeRestorePoints = RP != 0;
         f.setDefaultLogContainerSize((uint32_t)CONT);
-        configure(f);
         f.open(PATH.c_str(), std::ios_base::out);
         if (!f.is_open()) throw vx::Violation("state", "open() for writing failed");
         for (size_t i = 0; i < k; i++) {
